@@ -1,0 +1,35 @@
+//go:build verif
+
+package packhandle
+
+// Contracts for the gvc verifier (/verif). Comment-only; never compiled into
+// a normal build.
+//
+// Property C24 rests, for SharedFile, on every client pairing each successful
+// Acquire with exactly one Release (the SharedFile proof assumes it). These
+// contracts discharge that assumption for the pack handle, over the unit's own
+// call records: Meta releases the pack exactly once when its Acquire succeeded
+// and never otherwise (a second Release would take away another reader's pin);
+// newCursorReader hands its one reference over to the cursor it returns and
+// releases nothing.
+
+//gvc:func (*PackHandle).Meta
+//gvc:  props C24
+//gvc:  theory int
+//gvc:  opt coarse
+//gvc:  opt frame args
+//gvc:  results meta err
+//gvc:  ensures once: calls("Acquire") <= 1
+//gvc:  ensures balanced: calls("Release") == ite(calls("Acquire") == 1 && lastres("Acquire") == nil, 1, 0)
+//gvc:end
+
+//gvc:func newCursorReader
+//gvc:  props C24
+//gvc:  theory int
+//gvc:  opt coarse
+//gvc:  opt frame args
+//gvc:  results c err
+//gvc:  ensures handover: calls("Acquire") == 1 && calls("Release") == 0
+//gvc:  ensures owner: err == nil ==> c != nil && c.sf == sf && lastres("Acquire") == nil
+//gvc:  ensures failed: err != nil ==> lastres("Acquire") != nil
+//gvc:end
